@@ -15,9 +15,25 @@ Theorem C18_plain_build : forall ninja_ok task_ok builds file c,
                  else Some (map bi_out (filter (selected_build c) builds)) in
   let argv := ninja_argv file (Nat.ltb 0 (mc_verbose c)) targets (mc_jobs c) (Some (mc_keep_going c)) in
   main_after_generate ninja_ok task_ok builds file c =
-  {| o_actions := [ANinja argv]; o_exit := if ninja_ok argv then 0 else 1 |}.
+  match targets with
+  | Some [] => {| o_actions := []; o_exit := 0 |}      (* the selection matches no configured build: nothing to build *)
+  | _ => {| o_actions := [ANinja argv]; o_exit := if ninja_ok argv then 0 else 1 |}
+  end.
 Proof. exact plain_build. Qed.
 Print Assumptions C18_plain_build.
+
+(* no build outside the selection: ninja is never started with an empty target list unless the
+   command line selects every builder and every app (after fix 7aa44f9; an empty list would make
+   ninja build every default target of the file, which after a cache hit is the wider run's) *)
+Theorem C18_never_everything_by_accident : forall ninja_ok task_ok builds file c argv,
+  mc_task c = None ->
+  In (ANinja argv) (o_actions (main_after_generate ninja_ok task_ok builds file c)) ->
+  (is_all (mc_builders c) && is_all (mc_apps c) = true /\
+   argv = ninja_argv file (Nat.ltb 0 (mc_verbose c)) None (mc_jobs c) (Some (mc_keep_going c))) \/
+  (exists t ts, map bi_out (filter (selected_build c) builds) = t :: ts /\
+   argv = ninja_argv file (Nat.ltb 0 (mc_verbose c)) (Some (t :: ts)) (mc_jobs c) (Some (mc_keep_going c))).
+Proof. exact plain_build_targets. Qed.
+Print Assumptions C18_never_everything_by_accident.
 
 Theorem C18_generate_only : forall ninja_ok task_ok builds file c,
   mc_task c = None -> mc_generate_only c = true ->
